@@ -137,6 +137,8 @@ pub enum RealFn {
     NegSphere,
     /// `+inf` everywhere: every solution is infeasible (penalised), everything ties.
     AllInf,
+    /// Sphere plus 250: a known optimum far from zero.
+    OffsetSphere,
 }
 
 pub const REAL_FNS: [RealFn; 6] = [
@@ -180,6 +182,7 @@ impl Real {
             }
             RealFn::Plateau => x.iter().map(|v| (v.abs() * 2.0).floor()).sum::<f64>(),
             RealFn::AllInf => f64::INFINITY,
+            RealFn::OffsetSphere => x.iter().map(|v| v * v).sum::<f64>() + 250.0,
             RealFn::InfPart => {
                 let mid = self.domains.first().map(|d| (d.0 + d.1) / 2.0).unwrap_or(0.0);
                 if x.first().map(|v| *v > mid + 0.5 * (self.domains[0].1 - mid)).unwrap_or(false) {
@@ -228,6 +231,7 @@ impl KnownOptimumProblem for Real {
         so(match self.f {
             RealFn::NegSphere => -5.0,
             RealFn::AllInf => f64::INFINITY,
+            RealFn::OffsetSphere => 250.0,
             _ => 0.0,
         })
     }
